@@ -40,6 +40,10 @@ ACE = [w for _, w in G.IDN_KNOWN]  # lower-case A-labels that are fixed points o
 ACE_ODD = [b"XN--BCHER-KVA", b"xN--bChEr-KvA", b"xn--strae-oqa", b"xn--fa-hia", b"xn--MNCHEN-3YA"]  # DNS 0x20 case mixing, IDNA 2008 only
 DOT_LABELS = [b"first.last", b"john.doe", b"a.b"]  # SOA RNAME / RP mailbox with a dot in the local part (RFC 1035 8)
 HIGH_LABELS = ["Büro Printer".encode(), "café".encode(), b"\xff\xfe", "プリンタ".encode()]  # DNS-SD UTF-8 instance names
+SPACE_LABELS = [b"Office Printer 2", b"a b", b"My Mac", b"Living Room"]  # DNS-SD instance names, plain ASCII with spaces
+# labels for names INSIDE record data (SOA RNAME / RP mailboxes with an escaped dot, DNS-SD PTR/SRV targets, 0x20-mixed or IDNA-2008
+# A-labels): any octets are legal in a label (RFC 2181 section 11) and a forwarder has no reason to touch them
+EXOTIC_POOLS = [DOT_LABELS + [b"Office.Printer 2", b"john.q.public"], HIGH_LABELS, ACE_ODD, SPACE_LABELS, [b"EXAMPLE", b"MiXeD-Case", b"WwW"]]
 
 
 def label(r, hostile):
@@ -73,13 +77,34 @@ def label_feature(lab: bytes):
 class Zone:
     """A small pool of names sharing suffixes, so that a compressing encoder finds something to compress."""
 
-    def __init__(self, r, hostile=False):
+    def __init__(self, r, hostile=False, rdata_exotic=False):
         self.r = r
         self.hostile = hostile
+        self.rdata_exotic = rdata_exotic
         self.apex = [tuple(label(r, False) for _ in range(r.choice([1, 2, 2, 3]))) for _ in range(r.choice([1, 2]))]
         self.hosts = []
         for _ in range(4):
             self.hosts.append(tuple(label(r, hostile and r.random() < 0.5) for _ in range(r.choice([1, 1, 2]))) + r.choice(self.apex))
+
+    def rdata_name(self, exotic_ok=True):
+        """A name for use inside RDATA: in 'rdata_exotic' zones about half of them carry labels with arbitrary octets, drawn
+        from a small recurring pool (so that compressed second occurrences exist) or freshly built."""
+        r = self.r
+        if not (self.rdata_exotic and exotic_ok and r.random() < 0.55):
+            return self.name()
+        if not hasattr(self, "exotic_names"):
+            self.exotic_names = []
+            for _ in range(3):
+                labs = tuple(r.choice(r.choice(EXOTIC_POOLS)) for _ in range(r.choice([1, 1, 2])))
+                mid = r.choice([(), (), (b"_ipp", b"_tcp"), (b"_sip", b"_udp")])
+                self.exotic_names.append(labs + mid + r.choice(self.apex))
+        if r.random() < 0.7:
+            n = r.choice(self.exotic_names)
+        else:
+            n = tuple(r.choice(r.choice(EXOTIC_POOLS)) for _ in range(r.choice([1, 2]))) + r.choice(self.apex + self.hosts)
+        if 1 + sum(1 + len(x) for x in n) > 255:
+            n = r.choice(self.apex)
+        return n
 
     def name(self, allow_root=True):
         r = self.r
@@ -119,9 +144,9 @@ TXT_POOL = [b"v=spf1 include:_spf.example.com ~all", b"hello world", b"", b"k=rs
             b"google-site-verification=abcDEF123", b"x" * 255, "À bientôt".encode("latin-1")]
 
 
-def rdata_for(r, t, zone: Zone):
+def rdata_for(r, t, zone: Zone, exotic_ok=True):
     """-> (record fields {'rdata_parts': [...]} or {'rdata': bytes}, features)"""
-    nm = lambda: ("name", zone.name())  # noqa: E731
+    nm = lambda: ("name", zone.rdata_name(exotic_ok))  # noqa: E731
     f = set()
     lay = R.LAYOUTS.get(t)
     if lay is not None:
@@ -166,7 +191,7 @@ def rdata_for(r, t, zone: Zone):
         d = b"".join(opts)
     elif t in (R.HTTPS, R.SVCB):
         # priority, target name (never compressed), alpn + ipv4hint params
-        tgt = R.name_wire(zone.name())
+        tgt = R.name_wire(zone.rdata_name(exotic_ok))
         d = struct.pack("!H", r.choice([0, 1, 1, 0xC00C])) + tgt + r.choice([b"", b"\x00\x01\x00\x06\x02h2\x02h3", b"\x00\x04\x00\x04\xc0\x00\x02\x01"])
     elif t == 257:
         d = bytes([r.choice([0, 128])]) + charstr(r, [b"issue", b"iodef"]) + r.choice([b"letsencrypt.org", b"mailto:x@example.com", b";"])
@@ -185,10 +210,10 @@ RR_TYPES = [1, 1, 28, 28, 2, 2, 5, 5, 12, 15, 15, 6, 6, 33, 33, 16, 16, 16, 35, 
             3, 4, 7, 8, 9]
 
 
-def gen_rr(r, zone: Zone, t=None, owner=None):
+def gen_rr(r, zone: Zone, t=None, owner=None, exotic_ok=True):
     if t is None:
         t = r.choice(RR_TYPES) if r.random() < 0.93 else r.choice([99, 256, 65280, 65534, r.randrange(260, 65000)])
-    fields, f = rdata_for(r, t, zone)
+    fields, f = rdata_for(r, t, zone, exotic_ok)
     rr = {"name": zone.name() if owner is None else owner, "type": t, "class": r.choice([1, 1, 1, 1, 3, 254, 255]),
           "ttl": r.choice([0, 30, 60, 300, 3600, 86400, 2**31 - 1, 0xC00C0000, r.getrandbits(32)]), **fields}
     if "rdata_parts" in rr:
@@ -245,7 +270,7 @@ def realistic_message(r, zone: Zone, *, response: bool, mid: int, question=None)
     for _ in range(n_an):
         k = r.random()
         if k < 0.25:
-            rr, f2 = gen_rr(r, zone, t=5, owner=owner)  # CNAME chain
+            rr, f2 = gen_rr(r, zone, t=5, owner=owner, exotic_ok=False)  # CNAME chain: the target becomes the next owner name
             owner = rr["rdata_parts"][0][1]
         elif k < 0.6 and question["type"] not in (255,):
             rr, f2 = gen_rr(r, zone, t=question["type"] if question["type"] != 41 else 1, owner=owner)
@@ -341,6 +366,14 @@ def wire_features(buf: bytes, dec: dict) -> set:
                         f.add("rdata-two-names")
                 if opaque_has_c0(rr):
                     f.add("opaque-c0:" + TYPE_NAMES.get(rr["type"], "other"))
+                if rr["names"]:
+                    lit, ptd = rdata_name_labels(buf, rr)
+                    for lab in lit:
+                        if label_feature(lab) or b" " in lab:
+                            f.add("rdata-exotic-literal")
+                    for lab in ptd:
+                        if label_feature(lab) or b" " in lab:
+                            f.add("rdata-exotic-behind-pointer")
     except (R.DecodeError, IndexError):
         f.add("feature-walk-failed")
     for lab in all_labels(dec):
@@ -364,6 +397,43 @@ def opaque_octets(rr: dict) -> bytes:
 
 def opaque_has_c0(rr: dict) -> bool:
     return any(b >= 0xC0 for b in opaque_octets(rr))
+
+
+def split_name_at(buf: bytes, off: int):
+    """The name written at ``off`` -> (labels written literally at this position, labels reached through its compression pointer)."""
+    literal = []
+    while True:
+        b = buf[off]
+        if b & 0xC0 == 0xC0:
+            return literal, list(R.read_name(buf, off)[0])
+        if b == 0:
+            return literal, []
+        literal.append(bytes(buf[off + 1 : off + 1 + b]))
+        off += 1 + b
+
+
+def rdata_name_labels(buf: bytes, rr: dict):
+    """For a decoded record with parsed RDATA -> (all literal labels of its RDATA names, all labels behind pointers)."""
+    literal, pointed = [], []
+    o = rr["rdata_offset"]
+    for p in rr.get("rdata_parts") or ():
+        if isinstance(p, tuple):
+            lit, ptd = split_name_at(buf, o)
+            literal += lit
+            pointed += ptd
+            _, o = R.read_name(buf, o)
+        else:
+            o += len(p)
+    return literal, pointed
+
+
+def owner_labels(dec: dict):
+    """Labels of question and owner names (the names mitmproxy holds as text)."""
+    for q in dec["questions"]:
+        yield from q["name"]
+    for sec in ("answers", "authorities", "additionals"):
+        for rr in dec[sec]:
+            yield from rr["name"]
 
 
 def all_labels(dec: dict):
